@@ -134,10 +134,13 @@ func evalC06(e *Eval) {
 			}
 		}
 	}
+	// number of distinct Go types per Dart name (a type analysed by two source files has two nodes: one type)
 	local := map[string]int{}
+	countedType := map[*types.Named]bool{}
 	for _, n := range nodes {
-		if nn, ok := n.Type().(*types.Named); ok && nn.Obj().Pkg() != nil {
+		if nn, ok := n.Type().(*types.Named); ok && nn.Obj().Pkg() != nil && !countedType[nn] {
 			if _, isTime := n.(*analysis.Time); !isTime {
+				countedType[nn] = true
 				local[dartTitle(nn.Obj().Name())]++
 			}
 		}
